@@ -565,6 +565,16 @@ def _monitor(cfg, prop, model, F, res, max_days):
         if gs and np.any(prof.Penetrability < 100) and float(cg[CG["z_root"]]) < float(crop.Zmin) - 1e-9:
             roots_out = "z_root<Zmin on penetrability<100 soil"
 
+        # dense canopy: adjusted canopy cover 1.72c - c^2 + 0.3c^3 exceeds 1 (c > 0.966) -> negative EsPot
+        dense = None
+        if gs:
+            try:
+                ccadj = float(model._init_cond.canopy_cover_adj)
+            except Exception:
+                ccadj = 0.0
+            if ccadj > 1.0 or float(cg[CG["canopy_cover"]]) > 0.966:
+                dense = "canopy_cover_adj>1 (canopy cover > 0.966)"
+
         # ------------------------------------------------------------------ C01
         if prop == "C01":
             S0 = float(np.sum(1000.0 * dz * th0))
@@ -648,8 +658,8 @@ def _monitor(cfg, prop, model, F, res, max_days):
             if ss1 > zb + 1e-9:
                 F.add("C03.ponding_le_bund" if bunds_eff else "C03.ponding_zero_without_bunds",
                       "surface_storage <= z_bund (0 without bunds)",
-                      "%s: surface_storage=%.6f bund height=%.3f (bunds active=%s)" % (dstr, ss1, zb, bunds_eff),
-                      ss1 - zb, dstr)
+                      "%s: surface_storage=%.6f bund height=%.3f (bunds active=%s, Es=%.4f)" % (dstr, ss1, zb, bunds_eff, Es),
+                      ss1 - zb, dstr, tag=(dense + "|negative Es added to ponding") if (dense and Es < 0) else None)
             if float(wf[WF["Wr"]]) < 0:
                 F.add("C03.Wr_nonneg", "Wr >= 0", "%s: Wr=%.6e" % (dstr, wf[WF["Wr"]]), wf[WF["Wr"]], dstr)
             if ss1 > 0 or np.any(np.abs(hi) < 1e-9) or np.any(np.abs(lo) < 1e-6):
@@ -668,14 +678,13 @@ def _monitor(cfg, prop, model, F, res, max_days):
                     F.add("C04.%s_nonneg" % nm, "%s >= 0" % nm,
                           "%s dap=%d: %s=%.6e (canopy_cover=%.4f)" % (dstr, int(ws[2]), nm, v,
                                                                     cg[CG["canopy_cover"]]), v, dstr,
-                          tag=("%s|canopy_cover>0.966" % cfg["crop"]
-                               if (nm == "EsPot" and cg[CG["canopy_cover"]] > 0.966) else roots_out))
+                          tag=(dense if (nm in ("EsPot", "Es") and dense) else roots_out))
             if Es > EsPot + tol:
                 F.add("C04.Es_le_EsPot", "Es <= EsPot",
                       "%s dap=%d: Es=%.6f EsPot=%.6f (canopy_cover=%.4f)" % (dstr, int(ws[2]), Es, EsPot,
                                                                             cg[CG["canopy_cover"]]),
                       Es - EsPot, dstr,
-                      tag=("%s|canopy_cover>0.966" % cfg["crop"] if cg[CG["canopy_cover"]] > 0.966 else None))
+                      tag=dense)
             if Tr > TrPot + tol:
                 F.add("C04.Tr_le_TrPot", "Tr <= TrPot", "%s: Tr=%.6f TrPot=%.6f" % (dstr, Tr, TrPot),
                       Tr - TrPot, dstr, tag=roots_out)
@@ -1363,17 +1372,20 @@ def main():
                 if e is None:
                     sigs[sig] = {"signature": sig, "clause": "%s: %s" % (f["clause"], f["text"]),
                                  "first": f["first"], "days": f["days"], "worst": f["worst"], "configs": 1,
-                                 "cfg": cfg}
+                                 "cfg": cfg, "crops": {cfg["crop"]}, "soils": {cfg["soil_label"]}}
                 else:
                     e["days"] += f["days"]
                     e["configs"] += 1
+                    e["crops"].add(cfg["crop"])
+                    e["soils"].add(cfg["soil_label"])
                     e["worst"] = max(e["worst"], f["worst"])
         for sig in sorted(sigs):
             e = sigs[sig]
             out["failures"].append({
                 "signature": e["signature"], "clause": e["clause"],
-                "detail": "first: %s; %d failing day(s) in %d configuration(s) with this signature; worst magnitude %.3e"
-                          % (e["first"], e["days"], e["configs"], e["worst"]),
+                "detail": "first: %s; %d failing day(s) in %d configuration(s) with this signature; worst magnitude %.3e; "
+                          "crops %s; soils %s" % (e["first"], e["days"], e["configs"], e["worst"], sorted(e["crops"]),
+                                                  sorted(e["soils"])),
                 "repro": "import sys; sys.path.insert(0,'/verif/e3'); import water_monitors as wm; "
                          "print(wm.%s(%r%s)['fails'])" % (
                              "run_far_twin" if "far_depth" in e["cfg"] else "run_config", slim(e["cfg"]),
